@@ -677,6 +677,36 @@ func symOp(kind int, s *state, cols []int, maxConds int, dbm model.DatabaseModel
 		}
 		s.rows = keep
 		return ovsdb.Operation{Op: ovsdb.OperationDelete, Table: "Root", Where: w.wire()}, countIs(len(sel))
+	case 6: // update naming two columns: the set (possibly with its current value) and the integer
+		w := symWhere(maxConds, wcols)
+		sel := s.selectRows(w)
+		var l []string
+		n := rt.Choose(3)
+		for i := 0; i < n; i++ {
+			l = append(l, rt.String())
+		}
+		if n == 2 {
+			rt.Assume(l[0] != l[1])
+		}
+		v := rt.Int()
+		for _, r := range sel {
+			r.labels = append([]string(nil), l...)
+			r.num = v
+		}
+		return ovsdb.Operation{Op: ovsdb.OperationUpdate, Table: "Root", Where: w.wire(), Row: ovsdb.Row{"labels": strSetOvs(l), "num": v}}, countIs(len(sel))
+	case 7: // update naming the map (possibly with its current value) and the integer
+		w := symWhere(maxConds, wcols)
+		sel := s.selectRows(w)
+		var c []kv
+		if rt.Choose(2) == 1 {
+			c = []kv{{rt.String(), rt.String()}}
+		}
+		v := rt.Int()
+		for _, r := range sel {
+			r.conf = append([]kv(nil), c...)
+			r.num = v
+		}
+		return ovsdb.Operation{Op: ovsdb.OperationUpdate, Table: "Root", Where: w.wire(), Row: ovsdb.Row{"conf": confOvs(c), "num": v}}, countIs(len(sel))
 	default: // zero-timeout wait on one row's integer column
 		target := [...]string{fix.U1, fix.U2, fix.U3}[rt.Choose(3)]
 		v := rt.Int()
@@ -700,8 +730,11 @@ func symOp(kind int, s *state, cols []int, maxConds int, dbm model.DatabaseModel
 // program runs nOps symbolic operations (kinds from menu) on a database of nRows symbolic rows and compares
 // every result and the final contents with the reference.
 func program(nRows, nOps, maxConds int, cols []int, menu []int) {
+	programOn(symState(nRows, cols), nOps, maxConds, cols, menu)
+}
+
+func programOn(s *state, nOps, maxConds int, cols []int, menu []int) {
 	dbm := dbModel()
-	s := symState(nRows, cols)
 	db := seed(s)
 	rt.Assert(s.matches(db), "C03: the seeded database holds the inserted rows")
 	before := &state{}
@@ -713,9 +746,11 @@ func program(nRows, nOps, maxConds int, cols []int, menu []int) {
 	waitFails := -1
 	transientDup := false // two rows share an index value between operations (legal until commit)
 	for i := 0; i < nOps; i++ {
-		kind := menu[rt.Choose(len(menu))]
+		kind := 0
 		if forcedKinds != nil {
 			kind = forcedKinds[i]
+		} else {
+			kind = menu[rt.Choose(len(menu))]
 		}
 		if kind == 0 && s.find(fix.U3) != nil {
 			kind = 1
@@ -833,3 +868,27 @@ func VerifC03DeleteThenUpdate() {
 
 func VerifC03TwoOpsS() { program(1, 2, 1, []int{1}, []int{1, 2, 3, 4}) }
 func VerifC03TwoOpsI() { program(1, 2, 0, []int{1}, []int{0, 1, 2, 3, 4, 5}) }
+
+// symRow2: rows with up to two labels (multi-column update entries).
+func VerifC03MultiColSet() {
+	s := &state{}
+	r := &rrow{uuid: fix.U1, name: rt.String(), num: rt.Int()}
+	n := rt.Choose(3)
+	for i := 0; i < n; i++ {
+		r.labels = append(r.labels, rt.String())
+	}
+	if n == 2 {
+		rt.Assume(r.labels[0] != r.labels[1])
+	}
+	s.rows = []*rrow{r}
+	programOn(s, 1, 0, []int{1, 5}, []int{6})
+}
+
+func VerifC03MultiColMap() { program(1, 1, 0, []int{1, 6}, []int{7}) }
+
+// VerifC03ThenWhere: an update or mutation of the integer column followed by an operation whose where-clause is
+// on that column: later operations observe the effects of earlier ones.
+func VerifC03ThenWhere() {
+	forcedKinds = []int{2 + rt.Choose(2), 1}
+	program(1, 2, 1, []int{1}, []int{1, 2, 3, 4})
+}
